@@ -388,7 +388,12 @@ def scorer_pipeline(ctx, prog):
             ok = len(sc) == 1 and len(cap) == 1
             if ok:
                 c = cap[0]
-                ok = is_param(c[2][0], "log_block_size") and strip(c[2][1])[0] == "call" and strip(c[2][1])[1].endswith("::len") and who(strip(c[2][1])[2][0]) == "self"
+                l2 = strip(c[2][2])
+                ok = is_param(c[2][0], "log_block_size") and strip(c[2][1])[0] == "call" and strip(c[2][1])[1].endswith("::len") and who(strip(c[2][1])[2][0]) == "self" and \
+                    ((l2[0] == "call" and l2[1].endswith("::len") and who(l2[2][0]) == "other") or (l2[0] == "len" and who(l2[1]) == "other"))
+                # the raw score being capped is that of the same two strings
+                r = sc[0]
+                ok = ok and who(strip(r[2][0])) == "self" and who(strip(r[2][1])) == "other"
     ctx.ob(R, "score_strings_internal below the border = min(raw score, cap(log_block_size, len(self), len(other)))", ok, why, g.loc())
 
 
